@@ -17,7 +17,8 @@ EXPLANATION = (
     "and get_radius() are the area and the centre-to-corner distance of that rectangle. R19.9: the composition of the "
     "two conversions ltwh -> universal -> ltwh, as rational functions of left, top, width, height, confidence, is the "
     "identity. Both are decided by a rational-function normal form of the MIR expression (no execution); where the code "
-    "is not straight-line arithmetic the formula is recorded as not evaluated and only R19.2 / R19.4 apply.")
+    "is not straight-line arithmetic the formula is recorded as not evaluated and only R19.2 / R19.4 apply."
+    ' (R19.10) the filter state as a representation of a box: initiate / update / distance take the plain coordinates in the order the state -> box conversion reads back (R07.10).')
 NOT_DECIDED = ["float rounding of the ltwh <-> universal round trip and of the polygon vertices (the real-valued "
                "formulas are decided: R19.8 / R19.9)", "angle normalisation as a numeric statement (R19.7 decides that "
                "whole turns are removed)", "reflexivity for NaN coordinates"]
